@@ -89,6 +89,8 @@ def cast_elem(e, sd):
             return S.bv_const(int(e), sd)
         if isinstance(e, SC) and e.isconst and e.isreal:
             return S.bv_const(int(e.re.val), sd)
+        if isinstance(e, F64) and sd != np.bool_:
+            return e.to_int(sd)
         raise EngineError(f'cast of {type(e).__name__} to {sd}')
     if sd.kind == 'f':
         if isinstance(e, (SC, Dual)):
